@@ -551,11 +551,37 @@ func escParts(parts []string) string {
 
 // ---------- renderer: legal surface syntax with randomised choices ----------
 
+// c08Mark: where the renderer wrote the first character of an element's own declaration
+type c08Mark struct {
+	Path string `json:"path"` // path of the element in the generic dump of the module
+	File string `json:"file"`
+	Line int    `json:"line"` // zero-based
+	Col  int    `json:"col"`
+	Tok  string `json:"tok"` // the text written there (self-check of the oracle)
+}
+
 type c02Layout struct {
+	path     []string
+	marks    *[]c08Mark
+	file     string
+	stmtBase map[string]int // endpoint path -> number of statements written by earlier declarations
 	r        *Rand
 	unit     string
 	quote    byte
 	annoBody bool // write key="value" attributes as @key = "value" lines where the grammar allows
+}
+
+func (l *c02Layout) push(seg string) { l.path = append(l.path, seg) }
+func (l *c02Layout) pop()            { l.path = l.path[:len(l.path)-1] }
+func (l *c02Layout) cur() string     { return strings.Join(l.path, "") }
+
+// mark records that the element at the current path is about to be written after `ind` on the
+// line the builder is at
+func (l *c02Layout) mark(b *strings.Builder, ind string, tok string) {
+	if l.marks == nil {
+		return
+	}
+	*l.marks = append(*l.marks, c08Mark{Path: l.cur(), File: l.file, Line: strings.Count(b.String(), "\n"), Col: len(ind), Tok: tok})
 }
 
 func (l *c02Layout) q(s string) string {
@@ -608,6 +634,9 @@ func (l *c02Layout) inline(a dAttrs, kvInline bool) string {
 
 func (l *c02Layout) annoLines(b *strings.Builder, ind string, a dAttrs) {
 	for _, kv := range a.KV {
+		l.push(fmt.Sprintf(".attrs[%q]", kv.K))
+		l.mark(b, ind, "@"+kv.K)
+		l.pop()
 		fmt.Fprintf(b, "%s@%s = %s\n", ind, kv.K, l.attrVal(kv.V))
 	}
 }
@@ -658,10 +687,25 @@ func renderType(t dType) string {
 }
 
 func (l *c02Layout) stmts(b *strings.Builder, ind string, ss []dStmt) {
-	for _, s := range ss {
+	l.stmtsFrom(b, ind, ss, 0)
+}
+
+func (l *c02Layout) stmtsFrom(b *strings.Builder, ind string, ss []dStmt, base int) {
+	for i, s := range ss {
 		if l.r.Chance(1, 10) {
 			l.filler(b, ind)
 		}
+		l.push(fmt.Sprintf(".stmt[%d]", base+i))
+		if s.doc == nil {
+			l.mark(b, ind, "")
+		}
+		l.c08Stmt(b, ind, s)
+		l.pop()
+	}
+}
+
+func (l *c02Layout) c08Stmt(b *strings.Builder, ind string, s dStmt) {
+	{
 		switch s.K {
 		case "action":
 			if s.doc != nil {
@@ -686,15 +730,21 @@ func (l *c02Layout) stmts(b *strings.Builder, ind string, ss []dStmt) {
 				head = "for each " + s.T
 			}
 			b.WriteString(ind + head + ":\n")
+			l.push("." + s.K)
 			l.stmts(b, ind+l.unit, s.Body)
+			l.pop()
 		case "loop":
 			b.WriteString(ind + strings.ToLower(s.Mode) + " " + s.T + ":\n")
+			l.push(".loop")
 			l.stmts(b, ind+l.unit, s.Body)
+			l.pop()
 		case "alt":
 			b.WriteString(ind + "one of:\n")
-			for _, c := range s.Choices {
+			for ci, c := range s.Choices {
 				b.WriteString(ind + l.unit + c.Cond + ":\n")
+				l.push(fmt.Sprintf(".alt.choice[%d]", ci))
 				l.stmts(b, ind+l.unit+l.unit, c.Body)
+				l.pop()
 			}
 		}
 	}
@@ -711,9 +761,17 @@ func (l *c02Layout) params(ps []dParam) string {
 	return " (" + strings.Join(parts, ", ") + ")"
 }
 
-func (l *c02Layout) rest(b *strings.Builder, ind string, n dRest) {
+func (l *c02Layout) rest(b *strings.Builder, ind string, n dRest) { l.restAt(b, ind, n, "") }
+
+func (l *c02Layout) restAt(b *strings.Builder, ind string, n dRest, prefix string) {
 	var path strings.Builder
+	modelPath := prefix
 	for _, s := range n.Segs {
+		if s.Var != "" {
+			modelPath += "/{" + s.Var + "}"
+		} else {
+			modelPath += "/" + s.Lit
+		}
 		if s.Var != "" {
 			fmt.Fprintf(&path, "/{%s <: %s}", esc(s.Var), renderType(s.Ty))
 		} else {
@@ -727,7 +785,11 @@ func (l *c02Layout) rest(b *strings.Builder, ind string, n dRest) {
 	kvInline := !l.annoBody || l.r.Bool()
 	b.WriteString(ind + path.String() + l.inline(n.Attrs, kvInline) + ":\n")
 	if !kvInline {
+		// inherited by every method below: not an element of its own in the module
+		saved := l.marks
+		l.marks = nil
 		l.annoLines(b, ind+l.unit, n.Attrs)
+		l.marks = saved
 	}
 	for _, m := range n.Methods {
 		l.filler(b, ind+l.unit)
@@ -746,11 +808,20 @@ func (l *c02Layout) rest(b *strings.Builder, ind string, n dRest) {
 			}
 			q = " ?" + strings.Join(qs, "&")
 		}
+		l.push(fmt.Sprintf(".endpoints[%q]", m.Verb+" "+modelPath))
+		l.mark(b, ind+l.unit, m.Verb)
 		b.WriteString(ind + l.unit + m.Verb + l.params(m.Params) + q + l.inline(m.Attrs, true) + ":\n")
-		l.stmts(b, ind+l.unit+l.unit, m.Stmts)
+		// a doc-string that opens the body is the endpoint's docstring, not a statement
+		if len(m.Stmts) > 0 && m.Stmts[0].doc != nil {
+			l.c08Stmt(b, ind+l.unit+l.unit, m.Stmts[0])
+			l.stmtsFrom(b, ind+l.unit+l.unit, m.Stmts[1:], 0)
+		} else {
+			l.stmts(b, ind+l.unit+l.unit, m.Stmts)
+		}
+		l.pop()
 	}
 	for _, c := range n.Children {
-		l.rest(b, ind+l.unit, c)
+		l.restAt(b, ind+l.unit, c, modelPath)
 	}
 }
 
@@ -758,6 +829,9 @@ func (l *c02Layout) typeDecl(bp *strings.Builder, u string, t dTypeDecl) {
 	b := bp
 	r := l.r
 	tkv := !l.annoBody || r.Bool() || t.Kind == "union"
+	l.push(fmt.Sprintf(".types[%q]", t.Name))
+	defer l.pop()
+	l.mark(b, u, "!")
 	switch t.Kind {
 	case "type", "table":
 		kw := "!type"
@@ -773,6 +847,12 @@ func (l *c02Layout) typeDecl(bp *strings.Builder, u string, t dTypeDecl) {
 				l.filler(b, u+u)
 			}
 			fkv := !l.annoBody || r.Chance(2, 3) || len(fd.Attrs.KV) == 0
+			if t.Kind == "table" {
+				l.push(fmt.Sprintf(".relation.attr_defs[%q]", fd.Name))
+			} else {
+				l.push(fmt.Sprintf(".tuple.attr_defs[%q]", fd.Name))
+			}
+			l.mark(b, u+u, esc(fd.Name))
 			b.WriteString(u + u + esc(fd.Name) + " <: " + renderType(fd.Ty) + l.inline(fd.Attrs, fkv))
 			if !fkv {
 				b.WriteString(":\n")
@@ -780,6 +860,7 @@ func (l *c02Layout) typeDecl(bp *strings.Builder, u string, t dTypeDecl) {
 			} else {
 				b.WriteString("\n")
 			}
+			l.pop()
 		}
 	case "enum":
 		b.WriteString(u + "!enum " + t.Name + l.inline(t.Attrs, true) + ":\n")
@@ -798,8 +879,14 @@ func (l *c02Layout) typeDecl(bp *strings.Builder, u string, t dTypeDecl) {
 }
 
 func (l *c02Layout) endpoint(b *strings.Builder, u string, e dEp) {
+	l.push(fmt.Sprintf(".endpoints[%q]", e.Name))
+	defer l.pop()
 	if e.Event {
+		l.mark(b, u, "<->")
 		b.WriteString(u + "<-> " + e.Name + l.params(e.Params) + l.inline(e.Attrs, true) + ":\n")
+		l.push(".stmt[0]")
+		l.mark(b, u+u, "...")
+		l.pop()
 		b.WriteString(u + u + "...\n")
 		return
 	}
@@ -809,19 +896,30 @@ func (l *c02Layout) endpoint(b *strings.Builder, u string, e dEp) {
 	}
 	// named values may also be written as annotation lines at the head of the body
 	kvInline := !l.annoBody || l.r.Bool() || len(e.Attrs.KV) == 0
+	l.mark(b, u, esc(e.Name))
 	b.WriteString(u + esc(e.Name) + long + l.params(e.Params) + l.inline(e.Attrs, kvInline) + ":\n")
 	if !kvInline {
 		l.annoLines(b, u+u, e.Attrs)
 	}
-	l.stmts(b, u+u, e.Stmts)
+	base := 0
+	if l.stmtBase != nil {
+		base = l.stmtBase[l.cur()]
+		l.stmtBase[l.cur()] = base + len(e.Stmts)
+	}
+	l.stmtsFrom(b, u+u, e.Stmts, base)
 }
 
-func renderDFile(f *dFile, r *Rand) string {
-	l := &c02Layout{r: r, unit: Pick(r, []string{"    ", "  ", "\t", "   ", "        "}), quote: '"', annoBody: r.Bool()}
+func renderDFile(f *dFile, r *Rand) string { return renderDFileMarked(f, r, "", nil, nil, "") }
+
+// renderDFileMarked also records where each element was written (C08) and may start the file
+// with import lines
+func renderDFileMarked(f *dFile, r *Rand, file string, marks *[]c08Mark, stmtBase map[string]int, header string) string {
+	l := &c02Layout{file: file, marks: marks, stmtBase: stmtBase, r: r, unit: Pick(r, []string{"    ", "  ", "\t", "   ", "        "}), quote: '"', annoBody: r.Bool()}
 	if r.Chance(1, 3) {
 		l.quote = '\''
 	}
 	var b strings.Builder
+	b.WriteString(header)
 	if r.Chance(1, 4) {
 		b.WriteString("# leading comment\n\n")
 	}
@@ -832,6 +930,8 @@ func renderDFile(f *dFile, r *Rand) string {
 			name += " " + l.q(a.Long)
 		}
 		kvInline := !l.annoBody || r.Bool()
+		l.path = []string{fmt.Sprintf("apps[%q]", appKey(a.Parts))}
+		l.mark(&b, "", escParts(a.Parts))
 		b.WriteString(name + l.inline(a.Attrs, kvInline) + ":\n")
 		u := l.unit
 		if !kvInline {
@@ -857,8 +957,11 @@ func renderDFile(f *dFile, r *Rand) string {
 		for _, sb := range a.Subs {
 			sb := sb
 			members = append(members, func() {
+				l.push(fmt.Sprintf(".endpoints[%q]", appKey(sb.Pub)+" -> "+sb.Event))
+				l.mark(&b, u, escParts(sb.Pub))
 				b.WriteString(u + escParts(sb.Pub) + " -> " + sb.Event + l.inline(sb.Attrs, true) + ":\n")
 				l.stmts(&b, u+u, sb.Stmts)
+				l.pop()
 			})
 		}
 		if len(a.Collector) > 0 {
